@@ -312,6 +312,9 @@ func (f *Frame) convert(st *State, v Val, to types.Type, pos token.Pos) Val {
 		fn := f.c.uf("box_"+sanitize(fs)+"_"+ts, []string{fs}, ts)
 		r := Val{T: fmt.Sprintf("(%s %s)", fn, v.T), Ty: to}
 		if fs != "Ifc" && fs != "Err" {
+			// asserting the boxed value's own type gives the value back
+			un := f.c.uf("unbox_"+ts+"_"+sanitize(fs), []string{ts}, fs)
+			st.assume(fmt.Sprintf("(= (%s %s) %s)", un, r.T, v.T))
 			// an interface holding a concrete value (even a nil pointer) is non-nil
 			nilc := "ifc_nil"
 			if ts == "Err" {
@@ -498,9 +501,22 @@ func (f *Frame) eval(st *State, e ast.Expr) Val {
 	case *ast.CompositeLit:
 		return f.evalCompositeLit(st, x)
 	case *ast.TypeAssertExpr:
+		xv := f.eval(st, x.X)
+		tt := f.typeOf(e)
+		xs, tso := f.c.sorts.SortOf(xv.Ty), f.c.sorts.SortOf(tt)
+		if (xs == "Ifc" || xs == "Err") && tso != "Ifc" && tso != "Err" {
+			// x.(T) with a concrete T: a function of the interface value (the same value unboxes the
+			// same way every time; unbox(box(v)) == v). The panic on a dynamic-type mismatch is not modelled.
+			f.c.note("type assertion x.(T): the value is a function of the interface value; the panic on a dynamic-type mismatch is not modelled")
+			un := f.c.uf("unbox_"+xs+"_"+sanitize(tso), []string{xs}, tso)
+			r := Val{T: fmt.Sprintf("(%s %s)", un, xv.T), Ty: tt}
+			for _, inv := range f.c.sorts.TypeInv(r.T, tt, 0) {
+				st.assume(inv)
+			}
+			return r
+		}
 		f.c.note("type assertion abstracted to an arbitrary value of the asserted type")
-		f.eval(st, x.X)
-		return f.havoc(st, "ta", f.typeOf(e))
+		return f.havoc(st, "ta", tt)
 	case *ast.FuncLit:
 		f.c.note("function literal treated as an opaque value")
 		return f.havoc(st, "fn", f.typeOf(e))
@@ -702,7 +718,9 @@ func (f *Frame) equal(st *State, a, b Val, n ast.Node) string {
 		case *types.Map:
 			so := f.c.sorts.SortOf(b.Ty)
 			fn := f.nilFn(b.Ty)
-			st.assume(fmt.Sprintf("(=> (%s %s) (= (%s.card %s) 0))", fn, b.T, so, b.T))
+			// a nil map has no keys
+			ks := f.c.sorts.SortOf(u.Key())
+			st.assume(fmt.Sprintf("(=> (%s %s) (and (= (%s.card %s) 0) (= (%s.dom %s) ((as const (Array %s Bool)) false))))", fn, b.T, so, b.T, so, b.T, ks))
 			return fmt.Sprintf("(%s %s)", fn, b.T)
 		case *types.Signature, *types.Chan:
 			so := f.c.sorts.SortOf(b.Ty)
